@@ -520,7 +520,7 @@ func main() {
 	configs := allConfigs()
 
 	// generated documents
-	nGen := r.Pick(60, 500)
+	nGen := r.Pick(60, 300)
 	for i := 0; i < nGen; i++ {
 		doc, di := genDoc(r.Rand, genOpts{allowHazards: true})
 		for _, d := range di.desc {
@@ -549,7 +549,7 @@ func main() {
 
 	// corpus
 	files := corpusFiles()
-	budget := r.Pick(12<<20, 400<<20)
+	budget := r.Pick(12<<20, 40<<20)
 	used := 0
 	for i, f := range files {
 		b, err := os.ReadFile(f)
@@ -563,9 +563,14 @@ func main() {
 			continue
 		}
 		used += len(b)
-		cs := configs
-		if !r.Thorough() {
-			cs = []wconf{configs[i%len(configs)], configs[(i+5)%len(configs)]}
+		// quick: 2 configurations per corpus file, thorough: 5, rotating over all 13
+		nc := r.Pick(2, 5)
+		var cs []wconf
+		for j := 0; j < nc; j++ {
+			cs = append(cs, configs[(i+j*5)%len(configs)])
+		}
+		if r.Thorough() && len(b) > 4<<20 {
+			continue
 		}
 		r.Count("corpus-file")
 		runDoc(r, docCase{name: filepath.Base(f), doc: b, desc: "corpus", maxObjs: r.Pick(1500, 6000)}, cs)
